@@ -454,6 +454,33 @@ Theorem C14_is_list_refines : forall fuel s v xs e,
 Proof. exact is_list_refines. Qed.
 Print Assumptions C14_is_list_refines.
 
+(* list? on circular lists (fix F11).  A circular list seen unrolled is an infinite
+   sequence of pair cells c 0, c 1, ... = (car address, cdr address) in which the cdr of
+   cell i is the address of cell i+1.  Whenever cells 2*t0 and t0 coincide for some
+   t0 >= 1 — true of every circular list: take the least multiple of the cycle length that
+   is at least the length of the handle — list? answers #f, with fuel 2*t0.  The two
+   corollaries instantiate it for cycles of one and of two pairs. *)
+Theorem C14_is_list_circular : forall fuel s v (c : nat -> N * N) t0,
+  val_ok s v -> called_with s [v] ->
+  heap_deref (hp s) v = Ok (VPair (fst (c O)) (snd (c O))) ->
+  (forall i, heap_deref (hp s) (VPtr (snd (c i))) = Ok (VPair (fst (c (S i))) (snd (c (S i))))) ->
+  (1 <= t0)%nat -> c (2 * t0)%nat = c t0 -> (2 * t0 <= fuel)%nat ->
+  exists s', is_list fuel s = ROk (VBool false) s' /\ hp s' = hp s /\ st s' = st s.
+Proof. exact is_list_circular. Qed.
+Print Assumptions C14_is_list_circular.
+
+Theorem C14_is_list_cycles : forall fuel s p q a b,
+  target_ok s p -> called_with s [VPtr p] -> (4 <= fuel)%nat ->
+  (heap_get (hp s) p = Ok (VPair a p) -> exists s', is_list fuel s = ROk (VBool false) s') /\
+  (heap_get (hp s) p = Ok (VPair a q) -> heap_get (hp s) q = Ok (VPair b p) ->
+     exists s', is_list fuel s = ROk (VBool false) s').
+Proof.
+  intros fuel s p q a b T H Hf. split.
+  - intros Hg. eapply is_list_self_loop; eauto. Lia.lia.
+  - intros Hp Hq. eapply is_list_two_cycle; eauto.
+Qed.
+Print Assumptions C14_is_list_cycles.
+
 (* ---------------------------------------------------------------------- equal? *)
 (* equal_spec.  On finite plain data ([adatum s x n]: booleans, characters, (), numbers,
    symbols, strings, pairs, vectors; n bounds the depth, so the data is acyclic), with
@@ -534,19 +561,11 @@ Definition append_improper_stmt : Prop :=
   Forall (fun l => exists xs e, achain (abs s) (absv s l) xs e /\ (length xs + 1 < fuel)%nat) lists ->
   render_fail (call_builtin (append fuel) s).
 
-(* OPEN: list? on a circular list answers #f (fix F11; the finite case is
-   C14_is_list_refines above; exercised by interface 41 of the correspondence check) *)
-Definition is_list_circular_stmt : Prop :=
-  forall s v (cells : nat -> N * N),
-  values_are_refs s -> val_ok s v -> called_with s [v] ->
-  (* an infinite chain of pair cells: v, then the cdr of each *)
-  (forall k, exists a d, cells k = (a, d) /\
-     heap_deref (hp s) (match k with O => v | S j => VPtr (snd (cells j)) end) = Ok (VPair a d)) ->
-  exists fuel0, forall fuel, (fuel0 <= fuel)%nat ->
-    exists s', is_list fuel s = ROk (VBool false) s'.
-
 (* OPEN (hand model of prelude.scm:147-258, Model/PreludeLists.v; to be re-stated over the
-   generated prelude run by the VM model): the Scheme-defined list procedures *)
+   generated prelude run by the VM model): the Scheme-defined list procedures.  Only
+   `list` has a theorem (C14_handmodel_list below); length (statement below), memq memv
+   member assq assv assoc map for-each caar cadr cdar cddr have NO theorem: they are
+   covered by the correspondence check and the reference-store oracle only. *)
 Definition prelude_length_stmt : Prop :=
   forall fuel s v xs e,
   values_are_refs s -> val_ok s v -> achain (abs s) (absv s v) xs e ->
@@ -555,12 +574,18 @@ Definition prelude_length_stmt : Prop :=
                                ROk (VNum (Fixnum (Z.of_nat (length xs)))) s' /\ pres s s') /\
   (e <> AImm VNil -> render_fail (MW.Model.PreludeLists.p_length fuel [v] s)).
 
-Definition prelude_list_stmt : Prop :=
-  forall s args,
+(* ==========================================================================
+   HAND MODEL SECTION.  The theorem below is about Model/PreludeLists.v, the hand
+   model of prelude.scm:147-258 that is validated by the correspondence check only; it is
+   to be re-established over the generated prelude run by the VM model.
+   ========================================================================== *)
+Theorem C14_handmodel_list : forall s args,
   values_are_refs s -> Forall (val_ok s) args ->
   exists r s' locs, MW.Model.PreludeLists.p_list args s = ROk r s' /\
     aprefix (abs s') (absv s' r) locs (map (absv s) args) (AImm VNil) /\ fresh_in s locs /\
     pres s s' /\ values_are_refs s'.
+Proof. exact prelude_list_spec. Qed.
+Print Assumptions C14_handmodel_list.
 
 (* ----------------------------------------------------------------- non-vacuity *)
 (* the hypotheses are satisfiable: the empty machine satisfies the invariant, and the
